@@ -433,7 +433,7 @@ def main(out_path):
 
     o = []
     w = o.append
-    w('(* GENERATED by harness/translate.py from %s -- do not edit. *)' % REPO)
+    w('(* GENERATED by harness/translate.py from the working tree of the repository under check -- do not edit. *)')
     w('From VModel Require Import Base.')
     w('Open Scope string_scope. Open Scope list_scope. Open Scope Z_scope.')
     w('Definition rawdb := list (string * list (string * list (list (option string)))).')
